@@ -6,6 +6,7 @@
 From PSA Require Import model.Bytes model.Checksum model.Layer model.Dhcp model.Clients model.Ipdb model.IpdbCheck spec.SpecCodec spec.SpecTable spec.SpecIpdb model.Server spec.Monitors.
 From PSA Require Import gen.GoFacts model.Sanitize model.Resolv spec.SpecResolv.
 From PSA Require Import model.Config spec.SpecConfig.
+From PSA Require Import model.Client.
 Open Scope N_scope.
 
 Definition arg (args : list (list N)) (i : nat) : list N := nth i args [].
@@ -343,6 +344,59 @@ Definition dispatch_c18 (tag : N) (a : LL) : LL :=
   | _ => [[99]]
   end.
 
+(* ---- C15: client automaton scripts ---- *)
+(* each event is five lists: header, mask, routers, dns, domain.
+   header = [kind; cancelled; ...]:
+     1 exchange: pre; outcome (0 accept 1 nak 2 timeout 3 cancel); dt; yiaddr; sid; has_mask; mtu; lease; t1; t2   (durations in ns)
+     2 arp check: outcome (0 none 1 own 2 foreign 3 cancelled); dt
+     3 setiface: ok; has_cancel; c        4 sleep: has_cancel; c        5 purge *)
+Definition dec_cevent (h mask routers dns domain : list N) : cevent * bool :=
+  let g i := nth i h 0 in
+  let z i := Z.of_N (g i) in
+  let ev :=
+    match g 0%nat with
+    | 1 => EExchange (z 2%nat)
+             (match g 3%nat with
+              | 0 => XAccept (z 4%nat) {| li_yiaddr := g 5%nat; li_sid := g 6%nat; li_mask := if g 7%nat =? 0 then None else Some mask;
+                                          li_routers := routers; li_dns := dns; li_domain := domain; li_mtu := g 8%nat;
+                                          li_lease := z 9%nat; li_t1 := z 10%nat; li_t2 := z 11%nat |}
+              | 1 => XNak (z 4%nat)
+              | 2 => XTimeout
+              | _ => XCancel (z 4%nat)
+              end)
+    | 2 => EArp (match g 2%nat with 0 => ANone | 1 => AOwn (z 3%nat) | 2 => AForeign (z 3%nat) | _ => ACancelled (z 3%nat) end)
+    | 3 => ESetIface (negb (g 2%nat =? 0)) (if g 3%nat =? 0 then None else Some (z 4%nat))
+    | 4 => ESleep (if g 2%nat =? 0 then None else Some (z 3%nat))
+    | _ => EPurge
+    end in
+  (ev, negb (g 1%nat =? 0)).
+
+Fixpoint dec_cevents (l : LL) : list (cevent * bool) :=
+  match l with
+  | h :: m :: r :: d :: dom :: rest => dec_cevent h m r d dom :: dec_cevents rest
+  | _ => []
+  end.
+
+Definition zn (z : Z) : N := Z.to_N z.
+Definition enc_action (a : action) : list N :=
+  match a with
+  | AUnconfigure t => [1; zn t]
+  | AUp t => [2; zn t]
+  | ASetIface t c ok => [3; zn t; b2n ok; nc_ip c; (match nc_router c with Some _ => 1 | None => 0 end);
+                          (match nc_router c with Some r => r | None => 0 end); nc_mtu c; zn (nc_lease c); len (nc_mask c)]
+                        ++ nc_mask c ++ [len (nc_dns c)] ++ nc_dns c ++ [len (nc_domain c)] ++ nc_domain c
+  | AExchange t k => [4; zn t; k]
+  | ACrash t => [5; zn t]
+  | AReturn t => [6; zn t]
+  end.
+
+Definition dispatch_c15 (tag : N) (a : LL) : LL :=
+  match tag with
+  | 1501 => map enc_action (run_script (negb (argn a 0 0 =? 0)) initial_client (dec_cevents (skipn 1 a)))
+  | 1502 => [map zn (delays (Z.of_N gf_retx_first_ns) (map Z.of_N (arg a 0)))]
+  | _ => [[99]]
+  end.
+
 (* C10: does a frame reach a handler (run.go's filter) *)
 Definition dispatch_c10 (tag : N) (a : LL) : LL :=
   match tag with
@@ -358,4 +412,5 @@ Definition dispatch (tag : N) (a : list (list N)) : list (list N) :=
   else if (1700 <=? tag) && (tag <? 1800) then dispatch_c17 tag a
   else if (1800 <=? tag) && (tag <? 1900) then dispatch_c18 tag a
   else if (1000 <=? tag) && (tag <? 1100) then dispatch_c10 tag a
+  else if (1500 <=? tag) && (tag <? 1600) then dispatch_c15 tag a
   else [[99]].
